@@ -8,9 +8,15 @@ upper bound below MAXIMUM_SELECT_TIMEOUT or min(timeout, MAX) forks forever.
 from __future__ import annotations
 
 import asyncio
+import logging
+import warnings
 from typing import Any, Callable, List
 
 from .forksym import SInt, lift
+
+
+logging.getLogger("asyncio").setLevel(logging.CRITICAL)
+warnings.filterwarnings("ignore", category=RuntimeWarning, message="coroutine .* was never awaited")
 
 
 class DeadlockError(RuntimeError):
@@ -48,6 +54,8 @@ class VLoop(asyncio.BaseEventLoop):
         self._selector = _FakeSelector(self)
         self._clock_resolution = 1
         self.executor_calls: List[Callable] = []
+        self.unhandled: List[dict] = []
+        self.set_exception_handler(lambda loop, ctx: loop.unhandled.append(ctx))
 
     def time(self):
         return self._vnow
